@@ -548,12 +548,24 @@ class World:
                             "recoverable": False, "ncorrupt": 0, "summary": str(cr)})
         return None
 
-    def op_repair(self, kind, force, cr):
+    def op_repair(self, kind, force, cr, midfault=""):
         node = self.fresh_node(kind)
         before = self.disk()
         known = {header_id(d, self.fmt) for d in before.values()}
         del MAPLOG[:]
+        if midfault:
+            # server `midfault` stops answering once the repairer has finished its survey (between the survey and the
+            # download of the version it chose)
+            def pol(grid, srv=midfault):
+                if not grid.pending:
+                    return ("timer",)
+                p = grid.pending[0]
+                if getattr(p, "server", None) == srv and len(MAPLOG) >= 1:
+                    return ("call", 0, "raise")
+                return ("call", 0, None)
+            self.g.policy = pol
         st, rr = self.run(node.repair(cr, force=force))
+        self.g.policy = "fifo"
         self.ev_maps()
         what = ""
         if st == "ok":
@@ -583,7 +595,7 @@ class World:
             del MAPLOG[:]
             if st2 == "ok":
                 post["content"] = self.contents.get(data, UNKNOWN_CONTENT)
-        self.events.append({"ev": "Repair", "node": kind, "force": force, "res": res, "what": what, "post": post})
+        self.events.append({"ev": "Repair", "node": kind, "force": force, "res": res, "what": what, "post": post, "midfault": midfault})
         return res
 
     def op_publish(self, kind, content):
@@ -930,6 +942,59 @@ def scen_c14_late(g, fg, rng, idx, thorough):
     return w.trace("c14")
 
 
+def scen_c14_mid(g, fg, rng, idx, thorough):
+    """the newest version on exactly k servers, the older one recoverable from the others; one holder of the newest
+    version stops answering between the repairer's survey and its download: the repair fails and changes nothing, or it
+    keeps the contents of the version it chose - it never publishes the older contents as the newest version"""
+    w = new_world(g, fg, rng, 2)
+    newest = len(w.vers)
+    w.wipe()
+    order = list(w.order)
+    rng.shuffle(order)
+    for i in range(w.k):
+        w.put(order[i], i, newest, how="newest_exactly_k")
+    rest = order[w.k:]
+    for j, s in enumerate(rest):
+        w.put(s, j % w.n, newest - 1, how="older_recoverable")
+    w.set_up([])
+    w.ev_layout()
+    kind = rng.choice(["w", "rw"])
+    cr = w.op_check(kind, False)
+    if cr is not None:
+        w.op_repair(kind, rng.random() < 0.3, cr, midfault=order[rng.randrange(w.k)])
+    w.op_read(rng.choice(["ro", "rw"]))
+    return w.trace("c14")
+
+
+def scen_c14_stale(g, fg, rng, idx, thorough):
+    """check results that went stale: a verifying check finds one share damaged inside (its prefix is intact); before the
+    repair runs, another writer's newer version lands on exactly that (server, share number) - fewer than k shares of it.
+    The repair, handed the old check results and no force, must not discard that newer version."""
+    w = new_world(g, fg, rng, 2)
+    newest = len(w.vers)
+    w.wipe()
+    order = list(w.order)
+    rng.shuffle(order)
+    for sh in range(w.n):
+        w.put(order[sh % len(order)], sh, newest - 1, how="plain_older")
+    victim_s, victim_sh = order[0], 0
+    kinds = [k_ for k_, c_ in TAMPERS.items() if c_ == "bodybad" and k_ in ("block", "salt", "bht")]
+    t_ = tampered(w, newest - 1, victim_sh, list(kinds), rng)
+    if t_ is not None:
+        w.put(victim_s, victim_sh, newest - 1, t_[1], t_[0], "damaged_inside:" + t_[2])
+    w.set_up([])
+    w.ev_layout()
+    kind = rng.choice(["w", "rw"])
+    cr = w.op_check(kind, True)
+    # the other writer's share arrives
+    w.put(victim_s, victim_sh, newest, how="newer_version_lands_on_the_reported_share")
+    w.ev_layout()
+    if cr is not None:
+        w.op_repair(kind, False, cr)
+    w.op_read(rng.choice(["ro", "rw"]))
+    return w.trace("c14")
+
+
 def ops_c14(w, rng):
     kind = rng.choice(["w", "rw"])
     w.op_check(kind, False)
@@ -937,7 +1002,14 @@ def ops_c14(w, rng):
     cr = w.op_check(kind, False)
     if cr is not None:
         first_force = rng.random() < 0.25
-        res = w.op_repair(kind, first_force, cr)
+        mid = ""
+        if rng.random() < 0.3:
+            # a server that holds a share of the newest version it has
+            newest_ = max((ent["v"] for ent in w.lay.values()), default=0)
+            holders = sorted({sname for (sname, sh), ent in w.lay.items() if ent["v"] == newest_ and sname not in w.removed})
+            if holders:
+                mid = rng.choice(holders)
+        res = w.op_repair(kind, first_force, cr, midfault=mid)
         if res == "mustforce":
             cr2 = w.op_check(kind, False)
             if cr2 is not None:
@@ -1026,7 +1098,14 @@ def main():
         if cases is not None:
             tr = scen_gen(g, fg, rng, cases[i], a.family)
         else:
-            tr = scen_c14_late(g, fg, rng, i, thorough) if late else SCENS[a.family](g, fg, rng, i, thorough)
+            if late:
+                tr = scen_c14_late(g, fg, rng, i, thorough)
+            elif a.family == "C14" and ns >= 4 and rng.random() < 0.12:
+                tr = scen_c14_mid(g, fg, rng, i, thorough)
+            elif a.family == "C14" and rng.random() < 0.1:
+                tr = scen_c14_stale(g, fg, rng, i, thorough)
+            else:
+                tr = SCENS[a.family](g, fg, rng, i, thorough)
         tr["consts"]["idx"] = i
         traces.append(tr)
         # forget this file
